@@ -464,6 +464,12 @@ def spec_builtin(eng, it, name, args, kwargs):
         if isinstance(args[0], VTable):
             return VBool(table_has(st, args[0], it.idx(args[1])))
         return VBool(it.rec_has(it.concretize(args[0]), args[1].s))
+    if name == 'owner':
+        l = it.concretize(args[0], (VList,))
+        t = st.hget_in(st.cur_heap(), 'G:own', z3.IntSort(), l.t)
+        if st.cur_heap() is st.H:
+            st.wf_array('G:own', 'ref')
+        return VRef(t, None)
     if name == 'has_keys':
         rec = it.concretize(args[0])
         return VBool(z3.And([it.rec_has(rec, a.s) for a in args[1:]]))
